@@ -5,7 +5,7 @@
    deletions of simple pixels, deletions of isolated points and fillings that are simple. *)
 From Coq Require Import ZArith List Bool Lia.
 From Centro Require Import Base.Topo Base.Skel Spec.TopoCheck Proofs.TopoCounts.
-From Centro Require Import Base.GraphC15 Model.LabelGraph Proofs.NeighborsC15 Proofs.EulerQuadC15 Proofs.EulerStepC15.
+From Centro Require Import Base.GraphC15 Model.LabelGraph Spec.EulerMovesC15 Proofs.NeighborsC15 Proofs.EulerQuadC15 Proofs.EulerStepC15.
 Import ListNotations.
 Open Scope Z_scope.
 
@@ -453,9 +453,6 @@ Proof.
     rewrite Forall_forall in FF. apply (te_fg_iff _ _ T b r Hb (FF r Hr)). exact Cbr.
 Qed.
 
-(* a background pixel whose four 4-neighbours are in the set: a one-pixel hole *)
-Definition hole4_at (im : image) (l y x : Z) : bool :=
-  nb_bit im l y x (-1) 0 && nb_bit im l y x 0 (-1) && nb_bit im l y x 0 1 && nb_bit im l y x 1 0.
 (* Finite (16 patterns): closing a one-pixel hole raises the quad count by 4 *)
 Lemma hole_delta_four : forall d0 d2 d6 d8 : bool, qdelta d0 true d2 true true d6 true d8 = 4.
 Proof. intros d0 d2 d6 d8. destruct d0, d2, d6, d8; vm_compute; reflexivity. Qed.
